@@ -104,8 +104,10 @@ var fixedSizeTypes = map[string]uint8{
 const (
 	// messages and unions are skipped by the length on the wire, not by the size of
 	// what was understood: the sender may know fields or branches we do not.
-	fmtAddWireLenToAt     = "at += %HDR + int(iohelp.ReadUint32Bytes(buf[at:]))\n"
-	fmtAddWireLenToAtSafe = "{\n\tln := %HDR + int(iohelp.ReadUint32Bytes(buf[at:]))\n\tif len(buf[at:]) < ln {\n\t\treturn io.ErrUnexpectedEOF\n\t}\n\tat += ln\n}\n"
+	fmtAddWireLenToAt = "at += %HDR + int(iohelp.ReadUint32Bytes(buf[at:]))\n"
+	// A corrupt length prefix may claim less than what was decoded: never advance by less
+	// than that, or sibling fields would be decoded from overlapping bytes.
+	fmtAddWireLenToAtSafe = "{\n\tln := %HDR + int(iohelp.ReadUint32Bytes(buf[at:]))\n\tif tmp := (%ASGN); ln < tmp.Size() {\n\t\tln = tmp.Size()\n\t}\n\tif len(buf[at:]) < ln {\n\t\treturn io.ErrUnexpectedEOF\n\t}\n\tat += ln\n}\n"
 
 	// a message is a 4 byte length followed by that many bytes
 	messageHeaderLen = "4"
